@@ -936,3 +936,39 @@ def shape_index_beyond_validated_rank(fn):
             if n.lineno > line and (n.slice.value >= r or n.slice.value < -r):
                 out.append((n, norm(n.value.value), r))
     return out
+
+
+
+def never_filled_collections(fn):
+    """[(assign node, name)]: a local created as an empty list / dict / set, never added to in any way (no method call on it, no subscript
+    store, no augmented assignment, never handed to a call, never aliased or rebound) and then returned: the caller always receives the empty
+    collection -- the statement that was meant to fill it is missing."""
+    out = []
+    empties = {}
+    for st in ast.walk(fn):
+        if isinstance(st, ast.Assign) and len(st.targets) == 1 and isinstance(st.targets[0], ast.Name):
+            v = st.value
+            if (isinstance(v, (ast.List, ast.Set)) and not v.elts) or (isinstance(v, ast.Dict) and not v.keys) or \
+                    (isinstance(v, ast.Call) and not v.args and not v.keywords and dotted(v.func) in ('list', 'dict', 'set')):
+                empties.setdefault(st.targets[0].id, []).append(st)
+    for name, sts in empties.items():
+        stores = [n for n in ast.walk(fn) if isinstance(n, ast.Name) and n.id == name and isinstance(n.ctx, (ast.Store, ast.Del))]
+        if len(stores) != len(sts):
+            continue                                     # rebound elsewhere
+        touched = False
+        returned = []
+        parents = {}
+        for p_ in ast.walk(fn):
+            for ch in ast.iter_child_nodes(p_):
+                parents[id(ch)] = p_
+        for n in ast.walk(fn):
+            if not (isinstance(n, ast.Name) and n.id == name and isinstance(n.ctx, ast.Load)):
+                continue
+            par = parents.get(id(n))
+            if isinstance(par, ast.Return) and par.value is n:
+                returned.append(par)
+            else:
+                touched = True                           # any other use (method call, subscript, argument, alias, iteration) may fill or share it
+        if returned and not touched:
+            out.append((sts[0], name))
+    return out
